@@ -75,7 +75,9 @@ Definition pre_violated (a : astate) (o : op) : bool :=
 Definition obj_cleanb (p : pers) (x : addr) (o : obj) : bool :=
   match load p x with
   | Some o0 => (o_bal o =? o_bal o0) && (o_nonce o =? o_nonce o0) && (o_hash o =? o_hash o0)%N &&
-               negb (o_suic o) && forallb (fun kv : key * Z => kv.2 =? pslot p x kv.1) (o_dirty o)
+               negb (o_suic o) &&
+               ((o_cache o =? 0)%N || (o_hash o =? 0)%N || bool_decide (is_Some (p_codes p !! o_hash o))) &&
+               forallb (fun kv : key * Z => kv.2 =? pslot p x kv.1) (o_dirty o)
   | None => false
   end.
 Definition slots_cachedb (o : obj) : bool :=
@@ -200,11 +202,12 @@ Definition flat3 (l : list (nat * nat * nat)) : list Z :=
   flat_map (fun '(a, b, c) => [Z.of_nat a; Z.of_nat b; Z.of_nat c]) l.
 
 (* ---- the guard of the proved bisimulation ------------------------------------------------ *)
-(* operations for which C16_bisim is proved; the others (code, account re-creation, logs, access
-   list, Finalise) are covered by the three-way correspondence only *)
+(* operations for which C16_bisim is proved; the others (logs, access list; CreateAccount over an
+   existing account, see create_fresh) are covered by the three-way correspondence only *)
 Definition core_op (o : op) : bool :=
   match o with
   | SubBalance _ _ | AddBalance _ _ | GetBalance _ | GetNonce _ | SetNonce _ _
+  | GetCodeHash _ | GetCode _ | SetCode _ _ | GetCodeSize _
   | AddRefund _ | SubRefund _ | GetRefund
   | GetCommittedState _ _ | GetState _ _ | SetState _ _ _
   | Suicide _ | HasSuicided _ | Exist _ | Empty _
